@@ -95,7 +95,7 @@ From PcoreV Require Import Model.DescribeWalk.
 
 (* the visits observed through expected.Accept(visitor, nil): the aliases by the order in which the harness
    numbered them (= the environment it printed), the unresolved references by name *)
-Inductive wobserved := WVisits (es : list ev) | WCrash.
+Inductive wobserved := WVisits (es : list ev) | WMany (n : N) | WCrash.
 (* what the describer returned (px.VerifDescribe): nothing / one unresolved-reference mismatch / anything else *)
 Inductive sobserved := SNone | SUnresolved | SOther | SCrash.
 
@@ -116,6 +116,7 @@ Definition walk_check (c : walk_case) : bool :=
       closed_env env && closed (length env) t &&
       match accept env t, obs with
       | WOk es, WVisits es' => list_eqb ev_eqb es es' && Nat.leb (length es') (visit_bound env t)
+      | WOk es, WMany n => N.eqb (N.of_nat (length es)) n
       | WFault, WCrash => true
       | _, _ => false
       end &&
